@@ -146,6 +146,11 @@ def gen_world(rng):
         # Decimal, whose arithmetic follows this thread-wide configuration
         return ["decimal", rng.choice([28, 9, 6, 3]),
                 rng.choice(["ROUND_HALF_EVEN", "ROUND_DOWN", "ROUND_UP"])]
+    if r < 0.92:
+        # the interpreter's int<->str digit limit: process configuration a
+        # host may change; the reading of an ordinary date does not depend
+        # on it
+        return ["intmax", rng.choice([0, 640, 640, 4300, 100000])]
     return ["new_parser", rng.choice([0, 1])]
 
 
@@ -239,6 +244,11 @@ class Env(object):
             c.prec = op[1]
             c.rounding = getattr(decimal, op[2])
             self.ctx.probe("decimal_context_changed")
+        elif op[0] == "intmax":
+            import sys
+            if hasattr(sys, "set_int_max_str_digits"):
+                sys.set_int_max_str_digits(op[1])
+                self.ctx.probe("int_max_str_digits_changed")
         self.config_events += 1
         self.ctx.event("world", op)
 
